@@ -3,7 +3,8 @@
     This file contains only statements, [exact], and [Print Assumptions]. *)
 From Coq Require Import String List NArith ZArith.
 From Fabio Require Import Lib.Outcome Lib.Bytes Model.FlagSet Model.KVSlice Model.GlobCacheSize
-     Proofs.FlagSet Proofs.KVSlice Proofs.GlobCacheSize.
+     Model.StartUp Model.LoadArgs Proofs.FlagSet Proofs.KVSlice Proofs.GlobCacheSize Proofs.StartUp
+     Proofs.LoadArgs.
 Import ListNotations.
 Local Open Scope N_scope.
 
@@ -42,6 +43,8 @@ Theorem C15_parse_flags_accepts : forall flags bad args environ prefixes props c
 Proof. exact parse_flags_accepts. Qed.
 Print Assumptions C15_parse_flags_accepts.
 
+(* (mechanism lemma, no specification content: [visited] is the model's own map; the
+   specification of the verdict is C15_parse_flags_verdict_spec below) *)
 Theorem C15_parse_flags_verdict : forall flags bad args environ prefixes props calls,
   parse_args flags bad args [] = Ok calls ->
   parse_flags flags bad args environ prefixes props = Ok (visited flags calls environ prefixes props) \/
@@ -67,6 +70,30 @@ Theorem C15_source_equivalence : forall flags bad args environ props calls rs k 
   exists r, In r rs /\ r_name r = fname f /\ final_raw r = Some v /\ r_set r = true.
 Proof. exact source_equivalence. Qed.
 Print Assumptions C15_source_equivalence.
+
+(* The verdict of ParseFlags for ANY flag list, argument list, environment block, prefix list
+   and file: it succeeds iff flag.Parse does and, for every registered flag the command line
+   does not set, the value of the first present other source is accepted by the flag's type. *)
+Theorem C15_parse_flags_verdict_spec : forall flags bad args environ prefixes props calls,
+  parse_args flags bad args [] = Ok calls ->
+  is_ok (parse_flags flags bad args environ prefixes props)
+  = forallb (chosen_ok bad calls environ prefixes props) flags.
+Proof. exact parse_flags_verdict_spec. Qed.
+Print Assumptions C15_parse_flags_verdict_spec.
+
+(* All spellings of a command-line assignment mean the same as "-name=v": "--name=v", and for
+   non-bool options "-name v" / "--name v", for bool options the bare "-name" (= true). *)
+Theorem C15_cmdline_spellings : forall bad name isbool v,
+  plain_name name ->
+  let flags := [{| fname := name; fbool := isbool |}] in
+  parse_args flags bad [45 :: 45 :: name ++ 61 :: v] [] = parse_args flags bad [45 :: name ++ 61 :: v] [] /\
+  (isbool = false ->
+   parse_args flags bad [45 :: name; v] [] = parse_args flags bad [45 :: name ++ 61 :: v] [] /\
+   parse_args flags bad [45 :: 45 :: name; v] [] = parse_args flags bad [45 :: name ++ 61 :: v] []) /\
+  (isbool = true ->
+   parse_args flags bad [45 :: name] [] = parse_args flags bad [45 :: name ++ 61 :: bs "true"] []).
+Proof. exact cmdline_spellings. Qed.
+Print Assumptions C15_cmdline_spellings.
 
 (* The same verdict from every source for EVERY raw value, well-formed for the option's type
    or not: "-name=v" on the command line is accepted iff the type accepts v, and so is v given
@@ -153,7 +180,9 @@ Theorem C15_accepted_never_panics : forall size calls,
 Proof. exact accepted_never_panics. Qed.
 Print Assumptions C15_accepted_never_panics.
 
-(* ... whatever glob.matching.disabled says: main.go builds the cache unconditionally, so the
+(* (restatement of the theorem above with the flag in the signature: the model's check ignores
+   glob.matching.disabled by definition; what ties this to the code is the class
+   glob-cache-size-x-matching-disabled) ... whatever glob.matching.disabled says: main.go builds the cache unconditionally, so the
    load-time check must not (and in the model does not) depend on that flag. *)
 Theorem C15_accepted_never_panics_any_flag : forall size disabled calls,
   load_then_use_settings size disabled calls = Err 1 \/
@@ -194,7 +223,8 @@ Theorem C15_globcache_not_runnable_outside_domain : forall size p,
 Proof. exact not_runnable_outside_domain. Qed.
 Print Assumptions C15_globcache_not_runnable_outside_domain.
 
-(* Degenerate option values (empty, blanks, separators or quotes only, arbitrary bytes,
+(* (composition of earlier theorems; it covers ParseFlags, parseKVSlice and the ui.addr block,
+   NOT all of config.Load -- see the last sentence)  Degenerate option values (empty, blanks, separators or quotes only, arbitrary bytes,
    malformed numbers ...), as far as the model carries load(): ParseFlags never panics
    whatever the raw values and whatever the typed values reject (C15_never_panics, for every
    [bad]; a rejected value is an error from every source, C15_same_verdict_every_source); parseKVSlice never panics (C15_kvslice_never_panics) and returns no map for
@@ -233,7 +263,9 @@ Theorem C15_illformed_value_source_dependent_refuted :
 Proof. exact illformed_value_source_dependent. Qed.
 Print Assumptions C15_illformed_value_source_dependent_refuted.
 
-(* Load keeps no state between calls (model: a history of Loads is the list of the single
+(* (assumption made explicit, not a result: [load_history] is [map load] by definition; the
+   content is in the load-history class of the correspondence run, which compares same-process
+   histories with fresh-process Loads)  Load keeps no state between calls (model: a history of Loads is the list of the single
    Loads): the result for an input is the single-Load result whatever was loaded before,
    and the results of earlier Loads are unchanged by later ones.  Tied to the code by the
    load-history class (same-process sequences compared with fresh-process Loads). *)
@@ -243,6 +275,53 @@ Theorem C15_load_history_independent :
   firstn (length before) (load_history load (before ++ x :: after)) = load_history load before.
 Proof. exact @load_history_independent. Qed.
 Print Assumptions C15_load_history_independent.
+
+(* config.parse (the version words, the spellings of -cfg, the -test. words) returns for every
+   non-empty argument list.  The empty list hits the explicit panic("missing exec name"):
+   os.Args always carries the program name, that case is outside the property's quantifier.
+   A version word makes config.Load return (nil, nil) -- neither a configuration nor an error,
+   by design: main prints the version and exits. *)
+Theorem C15_config_parse_never_panics : forall args, args <> [] -> config_parse args <> Panic.
+Proof. exact config_parse_never_panics. Qed.
+Print Assumptions C15_config_parse_never_panics.
+
+Theorem C15_config_parse_empty_args_outside_quantifier : config_parse [] = Panic.
+Proof. exact config_parse_empty. Qed.
+Print Assumptions C15_config_parse_empty_args_outside_quantifier.
+
+(* Accepted => runnable for metrics.interval: for EVERY interval and every metrics.target,
+   config.Load returns an error (interval <= 0, load.go:369, fix 8131dd0) or the providers
+   start (time.NewTicker does not panic). *)
+Theorem C15_accepted_runnable_metrics_interval : forall interval ticker_target,
+  load_then_start_metrics interval ticker_target = Err 1 \/
+  load_then_start_metrics interval ticker_target = Ok tt.
+Proof. exact accepted_runnable_metrics_interval. Qed.
+Print Assumptions C15_accepted_runnable_metrics_interval.
+
+(* Repaired in /repo by 8131dd0.  Before the fix every interval was accepted and an interval
+   <= 0 panicked in time.NewTicker when a statsd_raw / dogstatsd / graphite provider started. *)
+Theorem C15_accepted_runnable_metrics_interval_refuted : forall interval,
+  (interval <= 0)%Z ->
+  load_accepts_metrics_interval_unrepaired interval = true /\
+  load_then_start_metrics_unrepaired interval true = Panic.
+Proof. exact unrepaired_metrics_interval_panics. Qed.
+Print Assumptions C15_accepted_runnable_metrics_interval_refuted.
+
+(* non-vacuity: all five sources at once -- a successful ParseFlags in which the command line
+   wins, then FABIO_, then the plain variable, then the file, then nothing *)
+Theorem C15_precedence_nonvacuous :
+  let env := [bs "proxy_addr=:3"; bs "Fabio_Proxy_Addr=:2"; bs "HOME=/root"] in
+  let props := Some [(bs "proxy.addr", bs ":4")] in
+  option_map final_raw (option_map (fun rs => nth 0 rs {| r_name := []; r_set := false; r_calls := []; r_src := SrcDefault |})
+     (match parse_flags ex_flags no_bad_values [bs "-proxy.addr=:1"] env fabio_prefixes props with Ok rs => Some rs | _ => None end))
+  = Some (Some (bs ":1")) /\
+  parse_args ex_flags no_bad_values [bs "-proxy.addr=:1"] [] = Ok [(bs "proxy.addr", bs ":1")] /\
+  spec_choice [] env props (bs "proxy.addr") = Some (bs ":2") /\
+  spec_choice [] [bs "proxy_addr=:3"] props (bs "proxy.addr") = Some (bs ":3") /\
+  spec_choice [] [] props (bs "proxy.addr") = Some (bs ":4") /\
+  spec_choice [] [] None (bs "proxy.addr") = None.
+Proof. exact precedence_nonvacuous. Qed.
+Print Assumptions C15_precedence_nonvacuous.
 
 (* non-vacuity: concrete configurations meet the hypotheses *)
 Theorem C15_source_equivalence_nonvacuous :
